@@ -26,6 +26,9 @@
 EXTENDS ExprLang
 
 CONSTANTS Fams,       \* sequence of vocabularies (families); one is chosen in the initial state
+          Lazy,       \* FALSE: a tree is judged in the step that completes it (exhaustive search);
+                      \* TRUE: judging is a step of its own (random walks: TLC computes all successors of a
+                      \* state before it picks one, the judgement must not be paid for every candidate)
           EmitMin,    \* emit only trees with at least this many productions
           Bug         \* "" or the name of a seeded defect of the algorithm model (spec mutants)
 
@@ -332,7 +335,10 @@ PFinish == /\ Open /\ L = 1
 Init == stk = <<>> /\ fin = [done |-> FALSE, st |-> 0, ck |-> "", cp |-> 0] /\ jd = NoJd /\ fam \in 1..Len(Fams)
 \* the judged machine: jd is a function of the new stack and finishing record (one evaluation per step)
 Production == PNum \/ PVar \/ PBadVar \/ PWrap \/ PCall \/ PBadCall \/ PPowInt \/ PPowScoped \/ PTerm \/ PFrac \/ PNeg \/ PSum
-Next == /\ \/ Production /\ jd' = IF Len(stk') = 1 /\ stk'[1].no >= EmitMin THEN Judge(stk'[1]) ELSE NoJd
+Judgeable(s) == Len(s) = 1 /\ s[1].no >= EmitMin
+Next == /\ \/ ~Lazy /\ Production /\ jd' = IF Judgeable(stk') THEN Judge(stk'[1]) ELSE NoJd
+           \/ Lazy /\ (Judgeable(stk) => jd.c) /\ Production /\ jd' = NoJd
+           \/ Lazy /\ Judgeable(stk) /\ ~jd.c /\ jd' = Judge(stk[1]) /\ UNCHANGED <<stk, fin>>
            \/ PFinish /\ jd.c /\ jd' = Refinish(jd, Top.e, fin')
         /\ UNCHANGED fam
 Spec == Init /\ [][Next]_vars
